@@ -84,7 +84,7 @@ predict_contracts('softmax', '_Softmax', E1, EM,
 SOFT_MAPS = ['arm_to_sum', 'arm_to_count', 'arm_to_mean']
 arm_change_contracts('_Softmax', SOFT_MAPS + ['arm_to_exponent', 'arm_to_expectation'],
                      'val(self.arm_to_sum, arm) == 0 and val(self.arm_to_count, arm) == 0 and '
-                     'val(self.arm_to_mean, arm) == 0', other_maps=SOFT_MAPS,
+                     'val(self.arm_to_mean, arm) == 0', other_maps=SOFT_MAPS, pre_inv='INV~arms~soft',
                      # removing the only arm of a Softmax bandit raises (max() of an empty dict) after the arm list was
                      # changed: an undocumented rejection outside the classes C17 names; recorded in DESIGN.md
                      rem_req=['slen(self.arms) > 0'])
